@@ -1,8 +1,675 @@
-//! C15 - not built yet
-use vlib::report::{Ctx, Outcome};
+//! C15 - a misbehaving peer cannot crash, wedge or spin an endpoint.
+//!
+//! Level: exploration.  Exhaustive enumeration of a stated corpus, each case executed on the real stack:
+//!   part 1 (frame level)    : size fields 0..=16, 2^31, 2^32-1, 2^24, max-frame-size(+1); every doff byte and
+//!                             every type byte with a valid body, the 16x16 grid of small doff x type; every
+//!                             single-position corruption (truncation, overwrite, +-1, appended byte) of real
+//!                             performatives; nesting bombs up to the frame size; huge declared sizes;
+//!   part 2 (protocol level) : a catalogue of protocol-violating performatives (c15_scen.rs `catalogue()`; it also
+//!                             holds one control - a heartbeat - that judges the harness, and one protocol-legal
+//!                             drain flow that the corruption corpus showed to wedge a link)
+//!   x endpoint state reached by a conforming history prefix (before/after begin, attach, credit, outstanding
+//!     deliveries, in the middle of a multi-frame delivery in either direction, during detach/end/close)
+//!   x role (real client against the scripted peer; real listener against the scripted peer as client).
+//!
+//! Oracle (the statement, permissive readings noted):
+//!   (1) no panic in any library task (panics raised by this harness' own code are machinery errors);
+//!   (2) never blocks forever: the execution reaches quiescence (no busy spin, no watchdog) and - the statement
+//!       quantifies over what the peer SENDS, so after its one bad input the scripted peer behaves conformingly
+//!       again: it answers every close/end/detach, grants credit, settles, completes the delivery it had begun -
+//!       every pending or subsequent API call on every handle the application owns returns (Ok or Err) within
+//!       2 s of virtual time.  "Either ignored or error visible to the application" is read as: no call hangs;
+//!       WHICH scope the library shuts down and whether a call on a surviving scope returns Ok or Err is not
+//!       judged (recorded in the evidence as the outcome class);
+//!   (3) work in proportion: real time from injecting the bad input to quiescence <= 2 s (a frame is at most
+//!       64 KiB and is normally handled in well under a millisecond), the whole execution <= 2.5 s and inside
+//!       the watchdog (quick 2.2 s, thorough 5 s), no single allocation above 64 MiB while the bad input is
+//!       processed;
+//!   (4) a second, independent connection (real client <-> real listener in the same runtime) completes a
+//!       send/receive afterwards.
+//! Every case runs in a worker sub-process (one case at a time per worker): a stack overflow or abort kills only
+//! the worker and is reported for the case it was executing; a worker whose execution hit the watchdog exits so
+//! that the spinning thread dies with it.
+#[path = "c15_corpus.rs"]
+mod corpus15;
+#[path = "c15_scen.rs"]
+mod scen15;
 
-pub fn run(_ctx: &Ctx) -> Outcome {
-    let mut out = Outcome::new("model_checking");
-    out.machinery_errors.push("check C15 is not built yet".into());
+use scen15::{catalogue, Bad, Case, Obs, Role, St, ALL_STATES};
+use serde_json::{json, Value as J};
+use std::collections::{BTreeMap, BTreeSet};
+use std::io::{BufRead, BufReader, Write};
+use std::process::{Child, ChildStdin, Command, Stdio};
+use std::sync::atomic::{AtomicUsize, Ordering};
+use std::sync::{mpsc, Arc, Mutex};
+use std::time::{Duration, Instant};
+use vlib::report::{Ctx, Outcome};
+use vlib::runner::{run_exec, Exec, RunCfg, Scenario};
+use vlib::util::{hex, unhex};
+
+/// real time an execution may take before it is abandoned
+const WATCHDOG_QUICK: Duration = Duration::from_millis(2200);
+const WATCHDOG_THOROUGH: Duration = Duration::from_secs(5);
+/// real time the endpoint may spend on one bad input (a frame of at most 64 KiB)
+const SLOW_MS: f64 = 2000.0;
+const ALLOC_LIMIT: usize = 64 << 20;
+/// real time a whole execution may take (it normally takes a few milliseconds)
+const EXEC_SLOW_MS: f64 = 2500.0;
+
+fn watchdog(thorough: bool) -> Duration {
+    if thorough {
+        WATCHDOG_THOROUGH
+    } else {
+        WATCHDOG_QUICK
+    }
+}
+
+// ------------------------------------------------------------------------------------------ the case list
+
+fn states_protocol(thorough: bool) -> Vec<St> {
+    if thorough {
+        ALL_STATES.to_vec()
+    } else {
+        vec![St::Opened, St::Begun, St::AttachPending, St::Credit, St::Unsettled, St::MidIn, St::Ending, St::Closing]
+    }
+}
+fn states_frames(thorough: bool) -> Vec<St> {
+    if thorough {
+        ALL_STATES.to_vec()
+    } else {
+        vec![St::Opened, St::Credit, St::Unsettled, St::MidIn]
+    }
+}
+
+fn raw_corpus(thorough: bool) -> Vec<corpus15::RawCase> {
+    let mut v = vec![];
+    v.extend(corpus15::sizes());
+    v.extend(corpus15::doffs());
+    v.extend(corpus15::types());
+    v.extend(corpus15::grid());
+    v.extend(corpus15::bombs(thorough));
+    v.extend(corpus15::corruptions(thorough));
+    v
+}
+
+fn cases(thorough: bool) -> Vec<Case> {
+    let mut out = vec![];
+    for state in states_protocol(thorough) {
+        for role in [Role::Client, Role::Listener] {
+            for i in 0..catalogue().len() {
+                out.push(Case { role, state, bad: Bad::Item(i) });
+            }
+        }
+    }
+    let raws: Vec<(String, String, Arc<Vec<u8>>)> = raw_corpus(thorough).into_iter().map(|r| (r.family, r.label, Arc::new(r.bytes))).collect();
+    for state in states_frames(thorough) {
+        for role in [Role::Client, Role::Listener] {
+            for (family, label, bytes) in &raws {
+                out.push(Case { role, state, bad: Bad::Raw { family: family.clone(), label: label.clone(), bytes: bytes.clone() } });
+            }
+        }
+    }
+    out
+}
+
+fn case_json(c: &Case) -> J {
+    let bad = match &c.bad {
+        Bad::Item(i) => json!({"item": catalogue()[*i].name}),
+        Bad::Raw { family, label, bytes } => json!({"family": family, "label": label, "hex": hex(bytes)}),
+    };
+    json!({"role": c.role.tag(), "state": c.state.tag(), "bad": bad})
+}
+
+fn case_from_json(j: &J) -> Option<Case> {
+    let role = Role::from_tag(j.get("role")?.as_str()?)?;
+    let state = St::from_tag(j.get("state")?.as_str()?)?;
+    let b = j.get("bad")?;
+    let bad = if let Some(n) = b.get("item").and_then(|x| x.as_str()) {
+        Bad::Item(scen15::item_index(n)?)
+    } else {
+        Bad::Raw {
+            family: b.get("family")?.as_str()?.to_string(),
+            label: b.get("label")?.as_str()?.to_string(),
+            bytes: Arc::new(unhex(b.get("hex")?.as_str()?)?),
+        }
+    };
+    Some(Case { role, state, bad })
+}
+
+// ------------------------------------------------------------------------------------------ one execution + oracle
+
+fn run_case(case: &Case, thorough: bool) -> (Exec<Obs>, f64) {
+    let c = case.clone();
+    let scen: Scenario<Obs> = Arc::new(move || Box::pin(scen15::scenario(c.clone())));
+    let cfg = RunCfg { real_timeout: watchdog(thorough), ..RunCfg::none() };
+    let t0 = Instant::now();
+    let ex = run_exec(vec![], &cfg, &scen);
+    (ex, t0.elapsed().as_secs_f64() * 1000.0)
+}
+
+#[derive(Debug, Clone, Default, serde::Serialize, serde::Deserialize)]
+struct Res {
+    i: usize,
+    /// (signature, detail)
+    fails: Vec<(String, String)>,
+    mach: Option<String>,
+    react: String,
+    /// probe=outcome,... (error texts cut to their variant)
+    api: String,
+    ms: f64,
+    bad_ms: f64,
+    alloc: usize,
+    /// the execution ran to its end with the bad input delivered in the intended state
+    full: bool,
+    /// the worker must be restarted (watchdog: a thread may still be spinning)
+    poison: bool,
+    crashed: bool,
+}
+
+fn harness_panic(p: &str) -> bool {
+    p.contains("vcheck/src/") || p.contains("vlib/src/") || p.contains("refamqp/src/")
+}
+
+fn panic_class(p: &str) -> String {
+    // message without magnitudes, plus the source file (no line number)
+    let (m, loc) = p.rsplit_once(" @ ").unwrap_or((p, ""));
+    let m: String = m.chars().map(|c| if c.is_ascii_digit() { '#' } else { c }).collect();
+    let mut m2 = String::new();
+    for c in m.chars() {
+        if c == '#' && m2.ends_with('#') {
+            continue;
+        }
+        m2.push(c);
+    }
+    let file = loc.rsplit_once(':').map(|x| x.0).unwrap_or(loc);
+    let file = file.rsplit("/src/").next().unwrap_or(file);
+    format!("{} in {}", m2.chars().take(70).collect::<String>(), file)
+}
+
+fn api_class(o: &str) -> String {
+    if let Some(e) = o.strip_prefix("err:") {
+        let v: String = e.chars().take_while(|c| c.is_alphanumeric() || *c == '_').collect();
+        format!("err:{v}")
+    } else if o.starts_with("skipped") {
+        "skipped".into()
+    } else {
+        o.to_string()
+    }
+}
+
+fn judge(idx: usize, case: &Case, ex: &Exec<Obs>, wall_ms: f64, thorough: bool) -> Res {
+    let mut r = Res { i: idx, ms: wall_ms, ..Default::default() };
+    let fam = case.family();
+    let obs = ex.out.clone().unwrap_or_default();
+    r.react = obs.reaction.clone();
+    r.api = obs.api.iter().map(|(p, o)| format!("{p}={}", api_class(o))).collect::<Vec<_>>().join(",");
+    r.bad_ms = obs.bad_ms;
+    r.alloc = obs.max_alloc;
+    r.full = obs.reached && obs.completed;
+    let ctx = |obs: &Obs| format!("{}\n  reaction on the wire: {}\n  trace:\n    {}", case.describe(), if obs.reaction.is_empty() { "?" } else { &obs.reaction }, obs.trace.join("\n    "));
+    if ex.watchdog {
+        r.poison = true;
+        r.fails.push((
+            format!("disproportionate-work [{fam}]"),
+            format!("the execution did not finish within {:?} of REAL time (a case normally takes a few milliseconds): the endpoint keeps computing on one input. {}", watchdog(thorough), case.describe()),
+        ));
+        return r;
+    }
+    let mut lib_panic = false;
+    for p in &ex.panics {
+        if harness_panic(p) {
+            r.mach = Some(format!("harness panic: {p} [{}]", case.describe()));
+        } else {
+            lib_panic = true;
+            r.fails.push((format!("panic:{} [{fam}]", panic_class(p)), format!("a library task panicked: {p}\n{}", ctx(&obs))));
+        }
+    }
+    if ex.spun {
+        r.fails.push((format!("busy-spin [{fam}]"), format!("more than 20000 task polls at one virtual instant: some task spins without ever blocking\n{}", ctx(&obs))));
+        return r;
+    }
+    if ex.out.is_none() {
+        if !lib_panic && r.mach.is_none() {
+            r.mach = Some(format!("scenario produced no result: panics {:?} [{}]", ex.panics, case.describe()));
+        }
+        return r;
+    }
+    if let Some(m) = &obs.machinery {
+        r.mach = Some(m.clone());
+        return r;
+    }
+    if wall_ms > EXEC_SLOW_MS && obs.bad_ms <= SLOW_MS {
+        r.fails.push((
+            format!("disproportionate-work [{fam}]"),
+            format!("the execution took {:.0} ms of real time (a case normally takes a few milliseconds; the bad input was {} bytes)\n{}", wall_ms, obs.bad_bytes, ctx(&obs)),
+        ));
+    }
+    if obs.bad_ms > SLOW_MS {
+        r.fails.push((
+            format!("disproportionate-work [{fam}]"),
+            format!("processing the bad input ({} bytes) to quiescence took {:.0} ms of real time\n{}", obs.bad_bytes, obs.bad_ms, ctx(&obs)),
+        ));
+    }
+    if obs.max_alloc > ALLOC_LIMIT {
+        r.fails.push((
+            format!("disproportionate-allocation [{fam}]"),
+            format!("while processing the bad input ({} bytes) a single allocation of {} bytes was requested\n{}", obs.bad_bytes, obs.max_alloc, ctx(&obs)),
+        ));
+    }
+    let mut hung: Vec<&str> = vec![];
+    for (p, o) in &obs.api {
+        if o == "hang" && !hung.contains(&p.as_str()) {
+            hung.push(p);
+        }
+    }
+    if !hung.is_empty() {
+        r.fails.push((
+            // (role, state and the calls that hang are part of the class so that a listed finding covers one
+            // wedge, not every hang the same kind of input could ever cause)
+            format!("hang [{fam}] {:?}/{:?}: {}", case.role, case.state, hung.join("+")),
+            format!(
+                "{} did not return within {:?} of virtual time although the peer answered every close/end/detach, granted credit and settled: neither ignored nor an error visible to the application, the calls hang\n{}",
+                hung.join(", "),
+                scen15::HORIZON,
+                ctx(&obs)
+            ),
+        ));
+    }
+    if let Some(e) = &obs.bystander {
+        r.fails.push((format!("other-connection-affected [{fam}]"), format!("{e}\n{}", ctx(&obs))));
+    }
+    // the control input judges the harness: a heartbeat must leave everything working
+    if fam == "ctl-empty-frame" && r.fails.is_empty() {
+        let shutting = matches!(case.state, St::Detaching | St::PeerDetached | St::Ending | St::Closing);
+        let bad: Vec<&(String, String)> = obs.api.iter().filter(|(_, o)| o != "ok").collect();
+        if obs.reaction != "ignored" || (!shutting && !bad.is_empty()) {
+            r.mach = Some(format!("CONTROL failed (a heartbeat must be ignored and every probe must succeed): reaction {} probes {:?}\n{}", obs.reaction, bad, ctx(&obs)));
+        }
+    }
+    r
+}
+
+// ------------------------------------------------------------------------------------------ worker sub-process
+
+fn worker_main(thorough: bool) -> ! {
+    let list = cases(thorough);
+    let stdin = std::io::stdin();
+    let stdout = std::io::stdout();
+    let mut line = String::new();
+    loop {
+        line.clear();
+        match stdin.lock().read_line(&mut line) {
+            Ok(0) | Err(_) => std::process::exit(0),
+            Ok(_) => {}
+        }
+        for tok in line.split_whitespace() {
+            let Ok(idx) = tok.parse::<usize>() else { continue };
+            let Some(case) = list.get(idx) else {
+                let r = Res { i: idx, mach: Some(format!("worker: no case {idx}")), ..Default::default() };
+                let mut o = stdout.lock();
+                let _ = writeln!(o, "R {}", serde_json::to_string(&r).unwrap());
+                let _ = o.flush();
+                continue;
+            };
+            let (ex, ms) = run_case(case, thorough);
+            let r = judge(idx, case, &ex, ms, thorough);
+            {
+                let mut o = stdout.lock();
+                let _ = writeln!(o, "R {}", serde_json::to_string(&r).unwrap());
+                let _ = o.flush();
+            }
+            if r.poison {
+                // a thread of this process may still be spinning: die with it
+                std::process::exit(0);
+            }
+        }
+    }
+}
+
+struct Worker {
+    child: Child,
+    stdin: ChildStdin,
+    rx: mpsc::Receiver<String>,
+}
+
+fn spawn_worker(spec: &std::path::Path, thorough: bool) -> Result<Worker, String> {
+    let exe = std::env::current_exe().map_err(|e| format!("current_exe: {e}"))?;
+    let mut child = Command::new(exe)
+        .arg("C15")
+        .arg("--tier")
+        .arg(if thorough { "thorough" } else { "quick" })
+        .arg("--replay")
+        .arg(spec)
+        .stdin(Stdio::piped())
+        .stdout(Stdio::piped())
+        .stderr(Stdio::null())
+        .spawn()
+        .map_err(|e| format!("spawn worker: {e}"))?;
+    let stdin = child.stdin.take().ok_or("worker stdin")?;
+    let stdout = child.stdout.take().ok_or("worker stdout")?;
+    let (tx, rx) = mpsc::channel();
+    std::thread::spawn(move || {
+        let mut rd = BufReader::new(stdout);
+        let mut line = String::new();
+        loop {
+            line.clear();
+            match rd.read_line(&mut line) {
+                Ok(0) | Err(_) => break,
+                Ok(_) => {
+                    if tx.send(line.clone()).is_err() {
+                        break;
+                    }
+                }
+            }
+        }
+    });
+    Ok(Worker { child, stdin, rx })
+}
+
+/// Run all cases in worker sub-processes.  Returns one result per executed case.
+fn sweep(ctx: &Ctx, list: &Arc<Vec<Case>>, thorough: bool, machinery: &Mutex<Vec<String>>) -> (Vec<Res>, bool) {
+    let dir = std::env::temp_dir().join(format!("c15-{}", std::process::id()));
+    let _ = std::fs::create_dir_all(&dir);
+    let spec = dir.join("worker.json");
+    if let Err(e) = std::fs::write(&spec, json!({"worker": true, "thorough": thorough}).to_string()) {
+        machinery.lock().unwrap().push(format!("cannot write worker spec: {e}"));
+        return (vec![], false);
+    }
+    let next = AtomicUsize::new(0);
+    let results: Mutex<Vec<Res>> = Mutex::new(Vec::with_capacity(list.len()));
+    let cut = std::sync::atomic::AtomicBool::new(false);
+    let deadline = ctx.budget_s * 0.9;
+    let per_case = watchdog(thorough) + Duration::from_secs(20);
+    const BATCH: usize = 1;
+    let n_single = list.iter().take_while(|c| matches!(c.bad, Bad::Item(_))).count();
+    std::thread::scope(|sc| {
+        for _ in 0..ctx.threads.max(1) {
+            sc.spawn(|| {
+                let mut w: Option<Worker> = None;
+                'batches: loop {
+                    if ctx.elapsed() > deadline {
+                        cut.store(true, Ordering::Relaxed);
+                        break;
+                    }
+                    // protocol-level cases (the first `n_single`) one at a time: the heavy ones spread over all workers
+                    let lo = next.fetch_add(1, Ordering::Relaxed);
+                    let (lo, hi) = if lo < n_single { (lo, lo + 1) } else { let b = n_single + (lo - n_single) * BATCH; (b, b + BATCH) };
+                    if lo >= list.len() {
+                        break;
+                    }
+                    let mut todo: std::collections::VecDeque<usize> = (lo..hi.min(list.len())).collect();
+                    let mut respawns = 0;
+                    while !todo.is_empty() {
+                        if w.is_none() {
+                            match spawn_worker(&spec, thorough) {
+                                Ok(x) => w = Some(x),
+                                Err(e) => {
+                                    machinery.lock().unwrap().push(e);
+                                    break 'batches;
+                                }
+                            }
+                        }
+                        let wk = w.as_mut().unwrap();
+                        let line = todo.iter().map(|i| i.to_string()).collect::<Vec<_>>().join(" ");
+                        let mut dead = writeln!(wk.stdin, "{line}").and_then(|_| wk.stdin.flush()).is_err();
+                        let mut timed_out = false;
+                        while !dead && !todo.is_empty() {
+                            match wk.rx.recv_timeout(per_case) {
+                                Ok(l) => {
+                                    let Some(js) = l.strip_prefix("R ") else { continue };
+                                    match serde_json::from_str::<Res>(js.trim()) {
+                                        Ok(r) => {
+                                            if Some(&r.i) == todo.front() {
+                                                todo.pop_front();
+                                            }
+                                            let poison = r.poison;
+                                            results.lock().unwrap().push(r);
+                                            if poison {
+                                                dead = true;
+                                                // expected exit, no crash
+                                                let _ = wk.child.wait();
+                                                w = None;
+                                                break;
+                                            }
+                                        }
+                                        Err(e) => machinery.lock().unwrap().push(format!("worker line not understood: {e}: {}", &l[..l.len().min(200)])),
+                                    }
+                                }
+                                Err(mpsc::RecvTimeoutError::Timeout) => {
+                                    dead = true;
+                                    timed_out = true;
+                                }
+                                Err(mpsc::RecvTimeoutError::Disconnected) => {
+                                    dead = true;
+                                }
+                            }
+                        }
+                        if dead && w.is_some() {
+                            // the worker died (or got stuck) while executing the first case still to do
+                            let mut wk = w.take().unwrap();
+                            // stdout closed = the process is gone or going (wait for its status); no output
+                            // within the time limit = stuck (kill it)
+                            let stuck = timed_out;
+                            if stuck {
+                                let _ = wk.child.kill();
+                            }
+                            let status = wk.child.wait().map(|s| format!("{s}")).unwrap_or_else(|e| format!("{e}"));
+                            if let Some(i) = todo.pop_front() {
+                                let case = &list[i];
+                                let fam = case.family();
+                                let (sig, what) = if stuck {
+                                    (format!("disproportionate-work [{fam}]"), format!("the worker process produced no result within {per_case:?} and was killed"))
+                                } else {
+                                    (format!("process-crash [{fam}]"), format!("the worker process died ({status}) while executing the case: a stack overflow, abort or fatal signal inside the endpoint"))
+                                };
+                                results.lock().unwrap().push(Res { i, fails: vec![(sig, format!("{what}. {}", case.describe()))], crashed: true, ..Default::default() });
+                            }
+                            respawns += 1;
+                            if respawns > BATCH + 2 {
+                                machinery.lock().unwrap().push("worker keeps dying".into());
+                                break 'batches;
+                            }
+                        }
+                    }
+                }
+                if let Some(mut wk) = w.take() {
+                    drop(wk.stdin);
+                    let _ = wk.child.wait();
+                }
+            });
+        }
+    });
+    let _ = std::fs::remove_dir_all(&dir);
+    let mut v = results.into_inner().unwrap();
+    v.sort_by_key(|r| r.i);
+    (v, !cut.load(Ordering::Relaxed))
+}
+
+// ------------------------------------------------------------------------------------------ run
+
+fn state_rank(s: St) -> usize {
+    ALL_STATES.iter().position(|x| *x == s).unwrap_or(99)
+}
+
+pub fn run(ctx: &Ctx) -> Outcome {
+    scen15::set_alloc_hooks(crate::alloc_track::start, crate::alloc_track::stop);
+    let thorough = !ctx.quick();
+    if let Some(p) = &ctx.replay {
+        return replay(p, thorough);
+    }
+    let mut out = Outcome::new("exploration");
+    let t_gen = Instant::now();
+    let list = Arc::new(cases(thorough));
+    let gen_s = t_gen.elapsed().as_secs_f64();
+    let machinery = Mutex::new(vec![]);
+    let (results, complete) = sweep(ctx, &list, thorough, &machinery);
+    out.machinery_errors.extend(machinery.into_inner().unwrap());
+
+    if let Ok(p) = std::env::var("VERIF_C15_DUMP") {
+        let mut s = String::new();
+        for r in &results {
+            s.push_str(&json!({"case": list[r.i].describe(), "react": r.react, "api": r.api, "ms": r.ms, "bad_ms": r.bad_ms, "alloc": r.alloc, "full": r.full, "fails": r.fails.iter().map(|f| f.0.clone()).collect::<Vec<_>>()}).to_string());
+            s.push('\n');
+        }
+        let _ = std::fs::write(p, s);
+    }
+    // ---- aggregate
+    let mut violations: Vec<(usize, usize, String, String, J)> = vec![];
+    let mut classes: BTreeSet<(String, &'static str, &'static str, String)> = BTreeSet::new();
+    let mut reactions: BTreeMap<String, u64> = BTreeMap::new();
+    let mut by_part: BTreeMap<&'static str, u64> = BTreeMap::new();
+    let mut by_state: BTreeMap<&'static str, u64> = BTreeMap::new();
+    let mut api_hist: BTreeMap<String, u64> = BTreeMap::new();
+    let mut families: BTreeSet<String> = BTreeSet::new();
+    let (mut full, mut hangs, mut watchdogs, mut crashes, mut machs) = (0u64, 0u64, 0u64, 0u64, 0u64);
+    let (mut max_bad_ms, mut max_ms, mut max_alloc) = (0f64, 0f64, 0usize);
+    for r in &results {
+        let case = &list[r.i];
+        let fam = case.family();
+        *by_part.entry(if matches!(case.bad, Bad::Item(_)) { "protocol-level" } else { "frame-level" }).or_insert(0) += 1;
+        families.insert(fam.clone());
+        if let Some(m) = &r.mach {
+            machs += 1;
+            if machs <= 5 {
+                out.machinery_errors.push(m.clone());
+            }
+        }
+        if r.full {
+            full += 1;
+            *by_state.entry(case.state.tag()).or_insert(0) += 1;
+            classes.insert((fam.clone(), case.role.tag(), case.state.tag(), r.react.clone()));
+            // reaction without the condition detail for the histogram
+            *reactions.entry(r.react.clone()).or_insert(0) += 1;
+            for kv in r.api.split(',').filter(|s| !s.is_empty()) {
+                let o = kv.rsplit('=').next().unwrap_or("");
+                let o = if o.starts_with("err") { "err" } else { o };
+                *api_hist.entry(o.to_string()).or_insert(0) += 1;
+            }
+        }
+        if r.poison {
+            watchdogs += 1;
+        }
+        if r.crashed {
+            crashes += 1;
+        }
+        if !r.poison && !r.crashed {
+            max_bad_ms = max_bad_ms.max(r.bad_ms);
+            max_ms = max_ms.max(r.ms);
+        }
+        max_alloc = max_alloc.max(r.alloc);
+        for (sig, detail) in &r.fails {
+            if sig.starts_with("hang ") {
+                hangs += 1;
+            }
+            violations.push((state_rank(case.state), r.i, sig.clone(), detail.clone(), json!({"case": case_json(case)})));
+        }
+    }
+    if machs > 5 {
+        out.machinery_errors.push(format!("... and {} more machinery errors", machs - 5));
+    }
+    // minimal case of each class first: earliest state, then list order
+    violations.sort_by(|a, b| (a.0, a.1).cmp(&(b.0, b.1)));
+    for (_, _, sig, detail, rep) in violations {
+        out.violation(sig, detail, rep);
+    }
+
+    // ---- samples: re-execute three cases in this process for their traces
+    let mut samples: Vec<J> = vec![];
+    let mut want: Vec<usize> = vec![];
+    let pick = |f: &dyn Fn(&Res, &Case) -> bool| results.iter().find(|r| r.full && r.fails.is_empty() && r.mach.is_none() && f(r, &list[r.i])).map(|r| r.i);
+    if let Some(i) = pick(&|r, c| matches!(c.bad, Bad::Item(_)) && r.react.starts_with("end(")) {
+        want.push(i);
+    }
+    if let Some(i) = pick(&|r, c| matches!(c.bad, Bad::Item(_)) && r.react.starts_with("detach(")) {
+        want.push(i);
+    }
+    if let Some(i) = pick(&|r, c| matches!(c.bad, Bad::Raw { .. }) && c.state == St::Credit && r.react.starts_with("close(")) {
+        want.push(i);
+    }
+    if want.len() < 3 {
+        if let Some(i) = pick(&|_, _| true) {
+            want.push(i);
+        }
+    }
+    for i in want {
+        let (ex, _) = run_case(&list[i], thorough);
+        if let Some(o) = ex.out {
+            samples.push(json!({"case": list[i].describe(), "reaction": o.reaction, "probes": o.api.iter().map(|(p, r)| format!("{p} -> {r}")).collect::<Vec<_>>(), "trace": o.trace}));
+        }
+    }
+
+    let n_raw = list.iter().filter(|c| matches!(c.bad, Bad::Raw { .. })).count() / (states_frames(thorough).len() * 2).max(1);
+    out.set("evaluations", results.len() as u64);
+    out.set("cases_in_bound", list.len() as u64);
+    out.set("distinct_nontrivial", classes.len() as u64);
+    out.set(
+        "rule",
+        "an evaluation = one (role, state, bad input) case executed on the real stack with all probes; distinct_nontrivial counts distinct (input family or catalogue item, role, state, wire reaction of the endpoint) tuples among the executions in which the state prefix was verified (window/credit/pending call really in place), the bad input was delivered in that state and every probe ran",
+    );
+    out.set("exhaustive", complete && results.len() == list.len());
+    out.set(
+        "bound",
+        format!(
+            "protocol level: {} catalogue items x states {:?} x 2 roles; frame level: {} byte strings (sizes, 256 doff, 256 type, doff x type grid, bombs, single-position corruptions of {} seed performatives) x states {:?} x 2 roles",
+            catalogue().len(),
+            states_protocol(thorough).iter().map(|s| s.tag()).collect::<Vec<_>>(),
+            n_raw,
+            corpus15::seed_count(),
+            states_frames(thorough).iter().map(|s| s.tag()).collect::<Vec<_>>()
+        ),
+    );
+    out.set("samples", J::Array(samples));
+    out.set("executions_full", full);
+    out.set("by_part", json!(by_part));
+    out.set("executions_by_state_reached", json!(by_state));
+    out.set("wire_reactions", json!(reactions));
+    out.set("probe_outcomes", json!(api_hist));
+    out.set("input_families", families.len() as u64);
+    out.set("hang_findings", hangs);
+    out.set("watchdog_cases", watchdogs);
+    out.set("worker_crashes", crashes);
+    out.set("max_real_ms_bad_input", (max_bad_ms * 10.0).round() / 10.0);
+    out.set("max_real_ms_execution", (max_ms * 10.0).round() / 10.0);
+    out.set("max_single_allocation_bytes", max_alloc as u64);
+    out.set("case_generation_s", (gen_s * 100.0).round() / 100.0);
+    out.assume("after its one bad input the scripted peer behaves conformingly and helpfully (answers every close/end/detach, grants credit, settles, completes its started delivery): the property quantifies over what the peer sends, not over what it withholds");
+    out.assume("virtual time (paused tokio clock), default task schedule; a pending API call counts as hung after 2 s of virtual time with the peer answering at every quiescent point");
+    out.assume("real-time budgets: 2 s per bad input, watchdog per execution; allocation budget 64 MiB per request (frames are at most 64 KiB)");
+    out
+}
+
+fn replay(p: &std::path::Path, thorough: bool) -> Outcome {
+    let mut out = Outcome::new("exploration");
+    let j: J = match std::fs::read_to_string(p).map_err(|e| e.to_string()).and_then(|s| serde_json::from_str(&s).map_err(|e| e.to_string())) {
+        Ok(j) => j,
+        Err(e) => {
+            out.machinery_errors.push(format!("cannot read replay {}: {e}", p.display()));
+            return out;
+        }
+    };
+    if j.get("worker").and_then(|w| w.as_bool()) == Some(true) {
+        worker_main(j.get("thorough").and_then(|t| t.as_bool()).unwrap_or(thorough));
+    }
+    let cj = j.get("replay").and_then(|r| r.get("case")).or_else(|| j.get("case")).cloned().unwrap_or(J::Null);
+    let Some(case) = case_from_json(&cj) else {
+        out.machinery_errors.push("replay file has no understandable case".into());
+        return out;
+    };
+    println!("replaying: {}", case.describe());
+    let (ex, ms) = run_case(&case, thorough);
+    if let Some(o) = &ex.out {
+        for l in &o.trace {
+            println!("{l}");
+        }
+        println!("reaction: {}  bad input processed in {:.2} ms real, largest allocation {} bytes", o.reaction, o.bad_ms, o.max_alloc);
+    }
+    println!("execution: {:.1} ms real, watchdog={} spun={} panics={:?}", ms, ex.watchdog, ex.spun, ex.panics);
+    let r = judge(0, &case, &ex, ms, thorough);
+    if let Some(m) = r.mach {
+        out.machinery_errors.push(m);
+    }
+    for (sig, detail) in r.fails {
+        out.violation(sig, detail, json!({"case": case_json(&case)}));
+    }
     out
 }
